@@ -9,16 +9,19 @@ The operator of the program is its last term (or, for an empty program, the
 single leaf).  A term may be reused any number of times: this is what creates
 shared sub-trees (same object); a leaf used twice is a shared leaf.
 
-Input vector of the reference model: x = (a0, a1, b0)  [key a: 2 pixels, key b: 1 pixel].
+Input vector of the reference model: x = (a0, a1, b0, c0, c1)  [keys a, c: 2 pixels, key b: 1 pixel].
+Leaves U and V apply ONE UniformOperator object to the keys a and c (same operator object on different inputs).
 """
 import itertools
 
 import numpy as np
 
 LEAVES = ("X", "A", "E", "G", "B")
-LEAF_KEYS = dict(X="a", A="a", E="a", G="a", B="b")
+LEAF_KEYS = dict(X="a", A="a", E="a", G="a", B="b", U="a", V="c")
+NX = 5
+KEY_COLS = dict(a=[0, 1], b=[2], c=[3, 4])
 # leaves that are linear operators (a sum of two of them is folded into a SumOperator, no _OpSum node)
-LEAF_LINEAR = dict(X=True, A=True, E=False, G=False, B=False)
+LEAF_LINEAR = dict(X=True, A=True, E=False, G=False, B=False, U=False, V=False)
 LINS = ("S3", "D4")
 
 
@@ -107,9 +110,14 @@ def _sigmoid(z):
 
 
 def ref_leaf(name, x, num):
-    """(value (2,), Jacobian (2,3)) of a leaf at x = (a0, a1, b0)."""
-    a, b = x[:2], x[2]
-    Ja = np.hstack([np.eye(2), np.zeros((2, 1))])
+    """(value (2,), Jacobian (2,5)) of a leaf at x = (a0, a1, b0, c0, c1)."""
+    a, b, c = x[:2], x[2], x[3:5]
+    Ja = np.hstack([np.eye(2), np.zeros((2, 3))])
+    if name in ("U", "V"):
+        from scipy.stats import norm
+        z = a if name == "U" else c
+        Jz = Ja if name == "U" else np.hstack([np.zeros((2, 3)), np.eye(2)])
+        return 0.5 + 1.5 * norm.cdf(z), (1.5 * norm.pdf(z))[:, None] * Jz
     if name == "X":
         return a.copy(), Ja
     if name == "A":
@@ -120,7 +128,7 @@ def ref_leaf(name, x, num):
         return num["d2"] * np.exp(a), (num["d2"] * np.exp(a))[:, None] * Ja
     if name == "B":
         s = _sigmoid(num["d3"] * b)
-        J = np.zeros((2, 3))
+        J = np.zeros((2, NX))
         J[:, 2] = (0.5 - 0.5 * np.tanh(num["d3"] * b) ** 2) * num["d3"]
         return s, J
     raise ValueError(name)
